@@ -6,7 +6,7 @@ from .common import FAIL, OK, Harness, P, guard, pick
 from asphalt.core import merge_config  # noqa: E402
 
 KEYS = ("a", "a.b")
-KINDS = ["absent", "int", "None", "list of pairs", "{}", "{x:int}", "{x:{y:int}}", "{'a.b':int, x:int}", "0", "[]"]
+KINDS = ["absent", "int", "None", "list of pairs", "{}", "{x:int}", "{x:{y:int}}", "{'a.b':int, x:int}", "0", "[]", "{x:0}", "{x:False}"]
 SYM_KINDS = [0, 1, 3, 5, 6]  # kinds used by the data-symbolic harness (leaves symbolic)
 
 
@@ -28,6 +28,10 @@ def build(kind, v):
         return {"a.b": v, "x": v + 1}
     if kind == 8:
         return 0
+    if kind == 10:
+        return {"x": 0}
+    if kind == 11:
+        return {"x": False}
     return []
 
 
@@ -72,7 +76,9 @@ def same(x, y):
         return all(same(p, q) for p, q in zip(x, y))
     if x is None or y is None:
         return x is None and y is None
-    return type(x) is type(y) and x == y if isinstance(x, str) else x == y
+    if isinstance(x, (bool, str)) or isinstance(y, (bool, str)):
+        return type(x) is type(y) and x == y  # 0 == False, 1 == True: equal but NOT the same value
+    return x == y
 
 
 def nested_dicts(d, acc):
@@ -134,6 +140,12 @@ def judge(mo, mv, ko, kv, vals_o, vals_v, leaves):
     for d, snap in o_nested + v_nested:
         if len(d) != len(snap) or any(k not in d or d[k] is not snap[k] for k in snap):
             return FAIL(f"nested-dict-of-an-argument-modified:{summary['original']}|{summary['overrides']}", "", summary)
+    # "any other key present in overrides holds the overrides' value": the very object, not a copy of it
+    if overrides:
+        for k, val in overrides.items():
+            if not (isinstance(val, dict) and isinstance((original or {}).get(k), dict)):
+                if isinstance(val, (list, dict)) and result.get(k) is not val:
+                    return FAIL(f"override-value-replaced-by-a-copy:{summary['original']}|{summary['overrides']}", k, summary)
     exp = ref_merge(o_copy, v_copy)
     ok = same(result, exp)
     if ok:
